@@ -29,10 +29,11 @@ Every step emits at most one event; the events carry what the property clauses n
 Only the first `Shutdown` call is modelled (a second one panics in `close`, see
 `Model/C18.lean`, output `panicClose`).  Panics of the callbacks are not modelled.
 
-The step order was written against the skeletons in `Model/C18Skel.lean`; the obligations
-`fine_loop_order_matches_skeleton`, `fine_exits_match_skeleton` and
-`fine_shutdown_order_matches_skeleton` (`Theorems/C18Fine.lean`) compare the order that THIS
-step function produces with the skeletons regenerated from `/repo` on every run.
+The step order was written against the event graphs in `Model/C18Skel.lean`; the obligations
+`fine_loop_order_matches_skeleton`, `fine_exits_match_skeleton`,
+`fine_shutdown_order_matches_skeleton` and `fine_alphabet_covers_skeleton`
+(`Theorems/C18Fine.lean`) walk the graphs regenerated from `/repo` on every run along the
+order that THIS step function produces.
 
 The second half of the file is the scripted executor used by the line protocol
 (`Driver/C18.lean`, op `C18.fine`): one script command = one stimulus (a timer delivery, the
@@ -210,28 +211,55 @@ def ftrace (ros : Bool) : FSt → List Act → List FEv
   | _, [] => []
   | s, a :: as => (fstep ros s a).2.toList ++ ftrace ros (fstep ros s a).1 as
 
-/-! ## Step order, for the comparison with the regenerated skeletons -/
+/-! ## Step order, for the comparison with the regenerated event graphs -/
 
 open GolibsVerif.Skel in
-/-- the skeleton tokens an event stands for -/
-def evToks : FEv → List Tok
+/-- the labels of the event graphs (`Go/Skel.lean`) an event of the model stands for.  The
+channel / value descriptions are the translator's name-free ones: `recv.<chan unit>` is the
+worker's only channel field (`done`), `After()` the channel returned by `w.clock.After`. -/
+def evLbls : FEv → List Lbl
   | .untilCall => [.call "UntilNext"]
   | .after _ _ => [.call "After"]
-  | .selTimer => [.select, .caseRecv "w.clock.After(waitDur)"]
-  | .selDone => [.select, .caseRecv "w.done", .ret ""]
+  | .selTimer => [.select, .caseRecv "After()"]
+  | .selDone => [.select, .caseRecv "recv.<chan unit>"]
   | .recheckOpen => [.select, .caseDefault]
-  | .recheckClosed => [.select, .caseRecv "w.done", .ret ""]
+  | .recheckClosed => [.select, .caseRecv "recv.<chan unit>"]
   | .newCall _ => [.call "New"]
   | .refreshCall _ _ => [.call "Refresh"]
+  /- the loop's `if err != nil`; `Shutdown`'s own test of the final error decides between two
+  `return`s only and is not a state of the graph -/
+  | .refreshRet .loop e => [.cond "Refresh() == nil" (e == 0)]
   | .handleCall _ => [.call "Handle"]
-  | .closeDone => [.close "w.done"]
+  | .closeDone => [.close "recv.<chan unit>"]
   | _ => []
+
+open GolibsVerif.Skel in
+/-- labels of the graphs the fine model has no event for: the clock reading passed to
+`UntilNext`, `go`, the registration of deferred calls (`RecoverAndLogDefault`, `cancel`), frame
+brackets, residual conditions (the walk is directed by the next event), the final `return` -/
+def silentLbl : Lbl → Bool
+  | .call "Now" => true
+  | .goFunc | .frame | .endFunc | .deferCall _ | .cond _ _ | .ret _ => true
+  | _ => false
+
+open GolibsVerif.Skel in
+/-- every label of the graph is silent or in the model's alphabet -/
+def alphabetCovers (g : Graph) : Bool :=
+  g.all fun es => es.all fun e =>
+    silentLbl e.1 ||
+      [Lbl.call "UntilNext", .call "After", .select, .caseRecv "After()", .caseRecv "recv.<chan unit>",
+        .caseDefault, .call "New", .call "Refresh", .call "Handle", .close "recv.<chan unit>"].contains e.1
 
 /-- One full iteration of the loop goroutine with a failing refresh, no `Shutdown`: from the
 schedule consultation before the loop to the one at the end of the iteration. -/
 def loopIterationActs : List Act :=
   [.loop false, .untilRet 5, .loop true, .loop true, .loop false, .loop false, .newRet .loop,
    .loop false, .refreshRet .loop 1, .loop false, .handleRet, .loop false]
+
+/-- the same with a successful refresh (no `Handle`) -/
+def loopIterationOkActs : List Act :=
+  [.loop false, .untilRet 5, .loop true, .loop true, .loop false, .loop false, .newRet .loop,
+   .loop false, .refreshRet .loop 0, .loop false, .loop false]
 
 /-- `done` closed while the loop is blocked in the outer select -/
 def loopExitOuterActs : List Act :=
@@ -244,32 +272,6 @@ def loopExitRecheckActs : List Act :=
 /-- a `Shutdown` with `RefreshOnShutdown` whose final refresh fails -/
 def shutdownActs : List Act :=
   [.callShutdown, .shut, .shut, .shut, .newRet .shutdown, .shut, .refreshRet .shutdown 3, .shut]
-
-open GolibsVerif.Skel in
-/-- the call / select / close tokens of a skeleton, with `refresh` replaced by the calls of
-`w.refresh`'s own skeleton and `Now` (the clock reading passed to `UntilNext`) dropped -/
-def skelOrder (refresh : Skeleton) : Skeleton → List Tok
-  | [] => []
-  | .call "refresh" :: rest => refresh.filter (fun t => match t with | .call _ => true | _ => false) ++ skelOrder refresh rest
-  | .call "Now" :: rest => skelOrder refresh rest
-  | .call n :: rest => .call n :: skelOrder refresh rest
-  | .select :: rest => .select :: skelOrder refresh rest
-  | .close c :: rest => .close c :: skelOrder refresh rest
-  | _ :: rest => skelOrder refresh rest
-
-/-- the same projection of a model trace -/
-def traceOrder (tr : List FEv) : List Skel.Tok :=
-  (tr.flatMap evToks).filter fun t =>
-    match t with
-    | .call _ => true
-    | .select => true
-    | .close _ => true
-    | _ => false
-
-/-- `xs` occurs in `ys` as a contiguous block -/
-def hasInfix (xs : List Skel.Tok) : List Skel.Tok → Bool
-  | [] => xs.isEmpty
-  | y :: ys => xs.isPrefixOf (y :: ys) || hasInfix xs ys
 
 /-! ## Scripted executor (line protocol `C18.fine`) -/
 
